@@ -363,7 +363,7 @@ def make_case(rng, g):
                     bound_all.append((n, ty))
     atoms = [t for t, _ in subs if t[0] in ("fl", "p", "v")]
     compound = [t for t, _ in subs if t[0] not in LEAVES]
-    npairs = rng.choice([0, 1, 1, 1, 2, 2, 2, 3, 3, 4]) if rng.random() > 0.02 else 0
+    npairs = rng.choice([1, 1, 1, 2, 2, 2, 3, 3, 4]) if rng.random() > 0.02 else 0
     c = Ctx(TYPES)
     c.expr(e)
     pairs = []
